@@ -185,7 +185,7 @@ func (v *Verifier) sourceLine(p token.Pos) string {
 }
 
 // SweepTargets lists the functions of a package that have no contract (for the zero-annotation safety sweep).
-func (v *Verifier) SweepTargets(pkgPath string) []*ssa.Function {
+func (v *Verifier) SweepTargets(pkgPath string, prop string) []*ssa.Function {
 	p := v.pkgByPath[pkgPath]
 	if p == nil {
 		return nil
@@ -202,8 +202,20 @@ func (v *Verifier) SweepTargets(pkgPath string) []*ssa.Function {
 		if strings.HasSuffix(v.fset.Position(fn.Pos()).Filename, "_test.go") {
 			return
 		}
+		// swept: functions without a contract, and functions whose contract belongs to other properties only (their
+		// implicit-panic sites stay obligations of this property when they get such a contract)
 		if spec, _ := v.specFor(fn); spec == nil {
 			out = append(out, fn)
+		} else if !spec.Trusted && !spec.Has("trusted") {
+			mine := false
+			for _, p := range spec.Props {
+				if p == prop {
+					mine = true
+				}
+			}
+			if !mine && len(spec.Props) > 0 {
+				out = append(out, fn)
+			}
 		}
 		for _, a := range fn.AnonFuncs {
 			add(a)
